@@ -101,9 +101,11 @@ def inverse_shape(chk, cfg, b, rule, what, want_source):
             ent = ins[0][1][0]
             while isinstance(ent, tuple) and ent[0] == "deref":
                 ent = ent[1]
-            if isinstance(ent, tuple) and ent[0] == "local" and len(ent) == 2:
-                # `mut seen` bound by the match arm and borrowed mutably for the call: its value before the call
-                v0 = (getattr(p.raw, "env", None) or {}).get(ent[1])
+            if isinstance(ent, tuple) and ent[0] == "local" and len(ent) in (2, 3):
+                # `mut seen` bound by the match arm and borrowed mutably for the call: its value before the call (in the frame of
+                # the function itself, or of the private helper the loop was moved into)
+                env0 = (getattr(p.raw, "env", None) or {}) if len(ent) == 2 else ((getattr(p.raw, "envs", None) or {}).get(ent[2]) or {})
+                v0 = env0.get(ent[1])
                 if v0 is not None:
                     ent = an.norm_of(p)(an.peel_posts(v0)[0])
             if not (isinstance(ent, tuple) and ent[0] == "F" and isinstance(ent[1], tuple) and ent[1][0] == "downcast" and ent[1][1] == E):
